@@ -4,8 +4,8 @@
    correspondence check (harness/cmd/c02).  Every theorem holds for every field (flaws K). *)
 From Coq Require Import List NArith ZArith Arith Bool.
 Import ListNotations.
-Require Import V.base.Fld V.base.ZpField V.model.LinAlg V.model.Poly V.model.Access V.model.Msp V.model.Kw V.model.Schemes.
-Require Import V.proofs.Span_proofs V.proofs.Msp_proofs V.proofs.Kw_proofs V.proofs.Families_proofs V.proofs.Gate_proofs V.proofs.Hier_proofs V.proofs.Schemes_proofs.
+Require Import V.base.Fld V.base.ZpField V.model.LinAlg V.model.Poly V.model.Interp V.model.Access V.model.Msp V.model.Kw V.model.Schemes.
+Require Import V.proofs.Span_proofs V.proofs.Msp_proofs V.proofs.Kw_proofs V.proofs.Families_proofs V.proofs.Gate_proofs V.proofs.Hier_proofs V.proofs.Tassa_proofs V.proofs.Schemes_proofs.
 
 (* ---- generic: every MSP (any matrix, any labelling — ideal or not), every field ------------- *)
 
@@ -141,12 +141,82 @@ Theorem C02_gate_flat_exact : forall F (K : fops F), flaws K -> forall (fromN : 
 Proof. exact @gate_flat_exact. Qed.
 Print Assumptions C02_gate_flat_exact.
 
-(* hierarchical (Tassa / Birkhoff).  FULL STATEMENT (not proved — it needs Tassa's theorem on the
-   well-posedness of Birkhoff interpolation for the checked ID/level layouts):
-     induced_hier K fromN q levels = Some m -> (forall id, In id ids -> In id (msp_lab m)) ->
-       accepts K m ids = hier_eval ids [] levels.
-   Proved part: an ID list with fewer than t_1 holders of the first level is rejected
-   (first-level rows are scaled Vandermonde rows, lower levels vanish in the first t_1 columns). *)
+(* ---- hierarchical (Tassa / Birkhoff) ------------------------------------------------------------------
+   FULL STATEMENT:  induced_hier K fromN q levels = Some m -> (forall id, In id ids -> In id (msp_lab m)) ->
+                    accepts K m ids = hier_eval ids [] levels.
+   It is FALSE over an arbitrary field (C02_hier_exact_any_field_refuted below: Z_7, where 1 = 2*4); for the
+   library's fields it is Tassa's theorem, which is not proved here.  Proved:
+     - any MSP: D selected rows with non-zero determinant are accepted (C02_accepts_if_nonsingular);
+     - the rows an ID list selects ARE the Birkhoff matrix of its members as the code builds it, so a
+       non-singular Birkhoff matrix of k members gives acceptance (C02_hier_accepts_if_birkhoff_nonsingular);
+     - qualified => accepted relative to the single named hypothesis tassa_wellposed (C02_hier_qualified_accepted);
+     - unqualified by the count of the FIRST level => rejected, no hypothesis (C02_hier_exact_partial); for the
+       other levels rejection cannot be proved without a field-size hypothesis (same counter-example);
+     - the dedicated Tassa dealing is the KW dealing of this MSP, and Tassa Reconstruct returns the dealt
+       secret whenever the Birkhoff matrix of the presented holders is non-singular. *)
+Theorem C02_accepts_if_nonsingular : forall F (K : fops F), flaws K -> forall (m : msp) ids, wf_msp m -> ids <> [] ->
+  (forall id, In id ids -> In id (msp_lab m)) ->
+  length (sel_filter m ids) = msp_D m ->
+  determinant K (sub_rows (msp_M m) (sel_filter m ids)) <> f0 K ->
+  accepts K m ids = true.
+Proof. exact @accepts_if_nonsingular. Qed.
+Print Assumptions C02_accepts_if_nonsingular.
+
+Theorem C02_hier_accepts_if_birkhoff_nonsingular : forall F (K : fops F), flaws K -> forall (fromN : N -> F) q levels (m : msp) ids,
+  induced_hier K fromN q levels = Some m -> ids <> [] ->
+  (forall id, In id ids -> In id (msp_lab m)) ->
+  length (members levels ids) = hier_k levels ->
+  determinant K (build_birkhoff K (map fromN (members levels ids))
+                   (map (fun id => N.of_nat (rank0 levels id)) (members levels ids)) (hier_k levels)) <> f0 K ->
+  accepts K m ids = true.
+Proof. exact @hier_accepts_if_birkhoff_nonsingular. Qed.
+Print Assumptions C02_hier_accepts_if_birkhoff_nonsingular.
+
+(* qualified => accepted; the hypothesis tassa_wellposed (Tassa 2007, Thm 3: an authorised set contains k
+   holders with a non-singular Birkhoff matrix when IDs increase with the level and the field is large —
+   the condition hierarchical.CheckConstraints tests) stays a visible hypothesis *)
+Theorem C02_hier_qualified_accepted : forall F (K : fops F), flaws K -> forall (fromN : N -> F) q levels,
+  (* tassa_wellposed: *)
+  (forall S, (forall id, In id S -> In id (hier_holders levels)) -> hier_eval S [] levels = true ->
+     exists T, T <> [] /\ incl T S /\ length (members levels T) = hier_k levels /\
+       determinant K (build_birkhoff K (map fromN (members levels T))
+                        (map (fun id => N.of_nat (rank0 levels id)) (members levels T)) (hier_k levels)) <> f0 K) ->
+  forall (m : msp) ids,
+  induced_hier K fromN q levels = Some m ->
+  (forall id, In id ids -> In id (msp_lab m)) ->
+  is_qualified (Hier levels) ids = true -> accepts K m ids = true.
+Proof. exact @hier_qualified_accepted. Qed.
+Print Assumptions C02_hier_qualified_accepted.
+
+(* the dedicated scheme deals exactly the KW shares of the hierarchical MSP: Tassa inherits
+   reconstruct_correct / privacy / share_linear / to_additive_sums of the generic theorems *)
+Theorem C02_tassa_deal_is_kw_deal : forall F (K : fops F), flaws K -> forall (fromN : N -> F) q levels (m : msp) cs id v,
+  induced_hier K fromN q levels = Some m -> NoDup (flat_map snd levels) ->
+  length cs = hier_k levels ->
+  In (id, v) (tassa_deal K fromN levels cs) ->
+  share_of K m (mvec K (msp_M m) cs) id = (id, [v]).
+Proof. exact @tassa_deal_is_kw_deal. Qed.
+Print Assumptions C02_tassa_deal_is_kw_deal.
+
+(* Tassa Reconstruct (sort the nodes, Cramer's rule, degree check) returns the dealt secret whenever the
+   Birkhoff matrix of the presented (sorted) nodes is non-singular *)
+Theorem C02_tassa_reconstruct_correct_if_nonsingular : forall F (K : fops F), flaws K -> forall (fromN : N -> F)
+  (fkey : F -> Z) levels cs S,
+  NoDup S -> (2 <= length S)%nat -> incl S (flat_map snd levels) ->
+  is_qualified (Hier levels) S = true ->
+  length cs = hier_k levels -> (0 < hier_k levels)%nat -> nth (pred (hier_k levels)) cs (f0 K) <> f0 K ->
+  (hier_k levels <= length S)%nat ->
+  let xs := map fromN S in
+  let js := map (fun id => N.of_nat (rank0 levels id)) S in
+  let ys := map (fun id => peval K (pderiv_iter K (rank0 levels id) cs) (fromN id)) S in
+  let nodes := sort_nodes fkey (combine (combine xs js) ys) in
+  determinant K (build_birkhoff K (map (fun n : F * N * F => fst (fst n)) nodes)
+                                  (map (fun n : F * N * F => snd (fst n)) nodes) (length S)) <> f0 K ->
+  tassa_reconstruct K fromN fkey levels (combine S ys) = Some (nth 0 cs (f0 K)).
+Proof. exact @tassa_reconstruct_correct_if_nonsingular. Qed.
+Print Assumptions C02_tassa_reconstruct_correct_if_nonsingular.
+
+(* unqualified by the first level's count => rejected (no hypothesis) *)
 Theorem C02_hier_exact_partial : forall F (K : fops F), flaws K -> forall (fromN : N -> F) q t1 ps1 rest (m : msp) ids,
   induced_hier K fromN q ((t1, ps1) :: rest) = Some m ->
   hier_incr 0 ((t1, ps1) :: rest) ->
@@ -258,3 +328,12 @@ Example C02_nonvacuous :
 Proof.
   split; [|split; [|split]]; eexists; (split; [vm_compute; reflexivity|]); repeat split; vm_compute; reflexivity.
 Qed.
+
+(* the hierarchical exactness statement is false over an arbitrary field: over Z_7 the policy
+   (1 of {1}) and (3 of {1,4,5}) has the unqualified set {1,4} accepted (1 = 2*4 in Z_7), although
+   q = 2^256 passes the CheckConstraints guard — the guard is only meaningful when q is the field order *)
+Example C02_hier_exact_any_field_refuted :
+  exists m, induced_hier K7 fromN7 (2^256) [(1%nat, [1%N]); (3%nat, [4%N; 5%N])] = Some m /\
+            is_qualified (Hier [(1%nat, [1%N]); (3%nat, [4%N; 5%N])]) [1%N; 4%N] = false /\
+            accepts K7 m [1%N; 4%N] = true.
+Proof. eexists. split; [vm_compute; reflexivity|]. split; vm_compute; reflexivity. Qed.
